@@ -35,6 +35,13 @@ python3 - "$ID" "$N" "$CK" "$clean_demo" "$build" "$seeded_demo" "$suite" "$caug
 import json,sys
 ID,N,CK,clean,build,seeded,suite,caught,chk,WT,OUT=sys.argv[1:12]
 meta=json.load(open('%s/seed%s.json'%(WT,N)))
+import os
+prev=None
+if os.path.exists(OUT+'/meta.json'):
+    try:
+        pm=json.load(open(OUT+'/meta.json')); prev=pm.get('first_verdict') or {"check_caught":pm.get('checked_by_me',{}).get('check_caught'),"check_output_tail":pm.get('checked_by_me',{}).get('check_output_tail','')[-300:]}
+    except Exception: pass
+if prev and os.environ.get('KEEP_FIRST'): meta['first_verdict']=prev
 import re
 caught_by="; ".join(sorted(set(re.findall(r"what: ([^\[]{0,160})", chk))))[:400]
 meta.update({"checked_by_me":{"caught_by":caught_by,"demo_without_change":clean,"build_with_change":build or "ok","demo_with_change":seeded,"existing_suite_with_change":suite or "all packages ok","check_run":"./check %s quick (patch applied to /repo with git apply, undone afterwards)"%CK,"check_caught":caught,"check_output_tail":chk}})
